@@ -62,7 +62,7 @@ func rgSetOf(m map[string]bool) []string {
 
 func runRDFGraph(c *Ctx) *Violation {
 	t := c.T
-	c.Declare("remove_term_with_two_predecessors", "remove_statement", "remove_term", "predicate_also_a_node")
+	c.Declare("remove_term_with_two_predecessors", "remove_statement", "remove_term", "predicate_also_a_node", "add_after_remove")
 	n := 1 + t.Choose(simrt.KWorkload, 10)
 	model := map[rgTriple]bool{}
 	var order []rgTriple
@@ -113,7 +113,7 @@ func runRDFGraph(c *Ctx) *Violation {
 		if a, b := rgSetOf(preds), rgTermSet(g.Predicates()); strings.Join(a, " ") != strings.Join(b, " ") {
 			return viol("rdf-graph/predicates/"+stage, "%s: Predicates() = %v, predicates of the statements held: %v", stage, b, a)
 		}
-		for _, text := range append(append(append([]string(nil), rgSubjects...), rgPreds...), rgObjects...) {
+		for _, text := range append(append(append([]string{"<ex:s>", "<ex:t>"}, rgSubjects...), rgPreds...), rgObjects...) {
 			term, ok := g.TermFor(text)
 			want := nodes[text] || preds[text]
 			if ok != want || (ok && term.Value != text) {
@@ -275,6 +275,32 @@ func runRDFGraph(c *Ctx) *Violation {
 			return check(strings.SplitN(st, "(", 2)[0])
 		}); v != nil {
 			return v
+		}
+	}
+	// statements added after removals get UIDs that were released: the store
+	// must not hand out a UID that is still in use
+	if nrm > 0 {
+		nadd := 1 + t.Choose(simrt.KWorkload, 3)
+		var added []string
+		for i := 0; i < nadd; i++ {
+			k := rgTriple{rgSubjects[t.Choose(simrt.KValue, len(rgSubjects))], []string{"<ex:p>", "<ex:q>", "<ex:r>", "<ex:s>", "<ex:t>"}[t.Choose(simrt.KValue, 5)], rgObjects[t.Choose(simrt.KValue, len(rgObjects))]}
+			if model[k] {
+				continue
+			}
+			added = append(added, strings.Join(k[:], " "))
+			kk := k
+			if v := c.Guard("Graph/add-after-remove", func() string { return desc() + "\nthen removals, then added: " + strings.Join(added, " ; ") }, func() *Violation {
+				st := rdfStmt(kk[0], kk[1], kk[2], "")
+				g.AddStatement(st)
+				held[kk] = st
+				model[kk] = true
+				c.Case("control", false, hashString(strings.Join(doc, "\n")), hashString(strings.Join(added, ";")))
+				c.Oracle("store-add-after-remove")
+				c.Probe("add_after_remove", 1)
+				return check("after-add-after-remove")
+			}); v != nil {
+				return v
+			}
 		}
 	}
 	return nil
